@@ -656,3 +656,380 @@ Section Drain.
       eapply IH; eassumption.
   Qed.
 End Drain.
+
+(* ------------------------------------------------------------------ codecs: write then read *)
+
+Lemma land_low_high a b k : a < 2 ^ k -> N.land a (b * 2 ^ k) = 0.
+Proof.
+  intros H. apply N.bits_inj_0. intros n. rewrite N.land_spec.
+  destruct (N.lt_ge_cases n k) as [L|L].
+  - rewrite N.mul_pow2_bits_low by assumption. apply andb_false_r.
+  - replace a with (a mod 2 ^ k) by (apply N.mod_small; assumption).
+    rewrite N.mod_pow2_bits_high by assumption. reflexivity.
+Qed.
+
+Lemma lor_add a b k : a < 2 ^ k -> N.lor a (b * 2 ^ k) = a + b * 2 ^ k.
+Proof.
+  intros H. pose proof (land_low_high a b k H) as L.
+  rewrite <- N.lxor_lor by exact L. symmetry. apply N.add_nocarry_lxor. exact L.
+Qed.
+
+Lemma N_forall_lt (n : nat) (P : N -> bool) :
+  forallb P (map N.of_nat (seq 0 n)) = true -> forall x, x < N.of_nat n -> P x = true.
+Proof.
+  intros H x Hx. rewrite forallb_forall in H. apply H.
+  rewrite <- (N2Nat.id x). apply in_map. apply in_seq. lia.
+Qed.
+
+Lemma leb_byte_facts m : m < 128 ->
+  has_cont m = false /\ low7 m = m /\ has_cont (128 + m) = true /\ low7 (128 + m) = m.
+Proof.
+  intros H.
+  pose proof (N_forall_lt 128 (fun m => negb (has_cont m) && (low7 m =? m) && has_cont (128 + m) && (low7 (128 + m) =? m))) as F.
+  specialize (F eq_refl m H). simpl in F.
+  repeat rewrite andb_true_iff in F. destruct F as [[[F1 F2] F3] F4].
+  rewrite negb_true_iff in F1. repeat split; auto; lia.
+Qed.
+
+Lemma shl64_small dbg x s : s < 64 -> x * 2 ^ s < two64 -> shl64 dbg x s = Ok (x * 2 ^ s).
+Proof.
+  intros Hs Hx. unfold shl64. replace (64 <=? s) with false by lia.
+  rewrite N.shiftl_mul_pow2. now rewrite wrap64_small.
+Qed.
+
+Lemma pow2_lt_64 k : 2 ^ k < two64 -> k < 64.
+Proof. unfold two64. change 18446744073709551616 with (2 ^ 64). intros H. apply N.pow_lt_mono_r_iff in H; lia. Qed.
+
+Lemma uleb_loop_enc dbg : forall f v res0 k rest,
+  v < 128 ^ N.of_nat (S f) -> res0 < 2 ^ (7 * k) -> 1 <= k -> k <= 9 ->
+  res0 + v * 2 ^ (7 * k) < two64 ->
+  uleb_loop dbg res0 (7 * k) (enc_uleb_fuel (S f) v ++ rest) = Ok (res0 + v * 2 ^ (7 * k), rest).
+Proof.
+  induction f as [|f IH]; intros v res0 k rest Hv Hr Hk1 Hk9 Hs.
+  - (* one byte left *)
+    change (128 ^ N.of_nat 1) with 128 in Hv. simpl enc_uleb_fuel.
+    replace (v <? 128) with true by lia. simpl app.
+    destruct (leb_byte_facts v Hv) as [Hc [Hl _]].
+    cbn [uleb_loop]. rewrite b2n_n2b_small by lia.
+    assert (Hp : 0 < 2 ^ (7 * k)) by (apply N.neq_0_lt_0, N.pow_nonzero; discriminate).
+    assert (E63 : (7 * k =? 63) && negb (v =? 0) && negb (v =? 1) = false).
+    { destruct (7 * k =? 63) eqn:E; [|reflexivity]. simpl.
+      assert (7 * k = 63) by lia. rewrite H in Hs. change (2 ^ 63) with 9223372036854775808 in Hs.
+      unfold two64 in Hs. destruct (v =? 0) eqn:E0; [reflexivity|]. destruct (v =? 1) eqn:E1; [reflexivity|]. lia. }
+    rewrite E63, Hl, Hc.
+    rewrite shl64_small by (try lia). simpl. now rewrite lor_add by exact Hr.
+  - (* S f *)
+    assert (Hp : 0 < 2 ^ (7 * k)) by (apply N.neq_0_lt_0, N.pow_nonzero; discriminate).
+    change (enc_uleb_fuel (S (S f)) v)
+      with (if v <? 128 then [n2b v] else n2b (128 + v mod 128) :: enc_uleb_fuel (S f) (v / 128)).
+    destruct (v <? 128) eqn:E.
+    + (* short value: same as the base case *)
+      assert (Hv' : v < 128) by lia. simpl app.
+      destruct (leb_byte_facts v Hv') as [Hc [Hl _]].
+      cbn [uleb_loop]. rewrite b2n_n2b_small by lia.
+      assert (E63 : (7 * k =? 63) && negb (v =? 0) && negb (v =? 1) = false).
+      { destruct (7 * k =? 63) eqn:E'; [|reflexivity]. simpl.
+        assert (7 * k = 63) by lia. rewrite H in Hs. change (2 ^ 63) with 9223372036854775808 in Hs.
+        unfold two64 in Hs. destruct (v =? 0) eqn:E0; [reflexivity|]. destruct (v =? 1) eqn:E1; [reflexivity|]. lia. }
+      rewrite E63, Hl, Hc.
+      rewrite shl64_small by (try lia). simpl. now rewrite lor_add by exact Hr.
+    + assert (Hge : 128 <= v) by lia.
+      set (m := v mod 128). set (q := v / 128).
+      assert (Hm : m < 128) by (apply N.mod_lt; discriminate).
+      assert (Hvq : v = 128 * q + m) by (apply N.div_mod; discriminate).
+      destruct (leb_byte_facts m Hm) as [_ [_ [Hc Hl]]].
+      (* the shift stays below 63 *)
+      assert (Hk8 : k <= 8).
+      { assert (2 ^ (7 * k + 7) < two64).
+        { rewrite N.pow_add_r. change (2 ^ 7) with 128.
+          eapply N.le_lt_trans; [|exact Hs]. nia. }
+        apply pow2_lt_64 in H. lia. }
+      rewrite <- app_comm_cons. cbn [uleb_loop]. rewrite b2n_n2b_small by lia.
+      replace (7 * k =? 63) with false by lia. cbn [andb]. rewrite Hl, Hc.
+      assert (Hmk : m * 2 ^ (7 * k) < two64) by nia.
+      rewrite shl64_small by (try lia; exact Hmk). cbn [bind]. rewrite lor_add by exact Hr.
+      replace (7 * k + 7) with (7 * (k + 1)) by lia.
+      assert (P : 2 ^ (7 * (k + 1)) = 128 * 2 ^ (7 * k)).
+      { replace (7 * (k + 1)) with (7 + 7 * k) by lia. rewrite N.pow_add_r. reflexivity. }
+      rewrite IH.
+      * f_equal. f_equal. rewrite P, Hvq. ring.
+      * (* q < 128^(S f) *)
+        fold q. replace (N.of_nat (S (S f))) with (1 + N.of_nat (S f)) in Hv by lia.
+        rewrite N.pow_add_r in Hv. change (128 ^ 1) with 128 in Hv.
+        apply N.div_lt_upper_bound; [discriminate|exact Hv].
+      * rewrite P. nia.
+      * lia.
+      * lia.
+      * rewrite P. rewrite Hvq in Hs. nia.
+Qed.
+
+Lemma read_uleb128_enc dbg v rest :
+  v < two64 -> read_uleb128 dbg (enc_uleb v ++ rest) = Ok (v, rest).
+Proof.
+  intros Hv. unfold enc_uleb.
+  change (enc_uleb_fuel 19 v)
+    with (if v <? 128 then [n2b v] else n2b (128 + v mod 128) :: enc_uleb_fuel 18 (v / 128)).
+  destruct (v <? 128) eqn:E.
+  - assert (Hv' : v < 128) by lia. destruct (leb_byte_facts v Hv') as [Hc _].
+    simpl app. cbn [read_uleb128]. rewrite b2n_n2b_small by lia. now rewrite Hc.
+  - set (m := v mod 128). set (q := v / 128).
+    assert (Hm : m < 128) by (apply N.mod_lt; discriminate).
+    assert (Hvq : v = 128 * q + m) by (apply N.div_mod; discriminate).
+    destruct (leb_byte_facts m Hm) as [_ [_ [Hc Hl]]].
+    rewrite <- app_comm_cons. cbn [read_uleb128]. rewrite b2n_n2b_small by lia. rewrite Hc, Hl.
+    change 7 with (7 * 1). change 18%nat with (S 17).
+    rewrite uleb_loop_enc.
+    + f_equal. f_equal. change (2 ^ (7 * 1)) with 128. lia.
+    + fold q. apply N.div_lt_upper_bound; [discriminate|].
+      eapply N.lt_le_trans; [exact Hv|]. unfold two64. vm_compute. discriminate.
+    + change (2 ^ (7 * 1)) with 128. exact Hm.
+    + lia.
+    + lia.
+    + change (2 ^ (7 * 1)) with 128. lia.
+Qed.
+
+(* ---- fixed width *)
+
+Lemma le_bytes_length n : forall v, length (le_bytes n v) = n.
+Proof. induction n as [|n IH]; intros v; simpl; [reflexivity|]. now rewrite IH. Qed.
+
+Lemma enc_un_length n be v : length (enc_un n be v) = n.
+Proof. unfold enc_un, be_bytes. destruct be; [rewrite rev_length|]; apply le_bytes_length. Qed.
+
+Lemma le_val_le_bytes n : forall v, le_val (le_bytes n v) = v mod 256 ^ N.of_nat n.
+Proof.
+  induction n as [|n IH]; intros v.
+  - simpl. now rewrite N.mod_1_r.
+  - cbn [le_bytes le_val]. rewrite IH, b2n_n2b.
+    replace (N.of_nat (S n)) with (1 + N.of_nat n) by lia. rewrite N.pow_add_r. change (256 ^ 1) with 256.
+    rewrite N.mod_mul_r by (try discriminate; apply N.pow_nonzero; discriminate). reflexivity.
+Qed.
+
+Lemma read_un_enc n be v rest :
+  read_un n be (enc_un n be v ++ rest) = Ok (v mod 256 ^ N.of_nat n, rest).
+Proof.
+  unfold read_un, read_bytes. rewrite take_app by apply enc_un_length. simpl.
+  f_equal. f_equal. unfold enc_un, be_bytes, be_val. destruct be.
+  - rewrite rev_involutive. apply le_val_le_bytes.
+  - apply le_val_le_bytes.
+Qed.
+
+Lemma read_address_enc c a rest :
+  valid_asize (c_asize c) = true -> a < amod (c_asize c) ->
+  read_address (c_asize c) (c_be c) (enc_addr c a ++ rest) = Ok (a, rest).
+Proof.
+  intros Hv Ha. rewrite read_address_eq by exact Hv. unfold enc_addr. rewrite read_un_enc.
+  f_equal. f_equal. apply N.mod_small.
+  replace (256 ^ N.of_nat (N.to_nat (c_asize c))) with (amod (c_asize c)); [exact Ha|].
+  apply valid_asize_cases in Hv. destruct Hv as [-> | [-> | [-> | ->]]]; reflexivity.
+Qed.
+
+(* ------------------------------------------------------------------ raw entries: encode then parse *)
+
+Ltac wf_bounds H :=
+  unfold wf_rle, wf_pair, wf_lle, wf_locpair, wf_data, fits_u64, fits_addr, u64_max in H.
+
+Ltac rt_step :=
+  first [ rewrite <- app_assoc
+        | rewrite <- app_comm_cons
+        | rewrite read_uleb128_enc by (try assumption; unfold two64 in *; lia)
+        | rewrite read_address_enc by (try assumption; lia)
+        | progress cbn [bind] ].
+
+Lemma read_u8_cons b r : read_u8 (b :: r) = Ok (b2n b, r).
+Proof. reflexivity. Qed.
+
+Lemma rng_parse_rle_end dbg c rest : rng_parse dbg c false (n2b 0 :: rest) = Ok (None, rest).
+Proof. reflexivity. Qed.
+
+(* one lemma per opcode keeps the kernel's re-check of the reduced if-chain small *)
+Ltac opcode_start :=
+  rewrite <- app_comm_cons, read_u8_cons; cbn [bind];
+  rewrite b2n_n2b_small by lia; cbn [N.eqb Pos.eqb].
+
+Section RleEntries.
+  Variables (dbg : bool) (c : lcfg) (rest : list byte).
+  Hypothesis Hv : valid_asize (c_asize c) = true.
+
+  Lemma rle_basex i : i < two64 ->
+    rng_parse dbg c false (enc_rle c (LBasex i) ++ rest) = Ok (Some (LBasex i), rest).
+  Proof. intros. unfold rng_parse. cbn [enc_rle]. opcode_start. repeat rt_step. reflexivity. Qed.
+  Lemma rle_sxex i j : i < two64 -> j < two64 ->
+    rng_parse dbg c false (enc_rle c (LStartxEndx i j) ++ rest) = Ok (Some (LStartxEndx i j), rest).
+  Proof. intros. unfold rng_parse. cbn [enc_rle]. opcode_start. repeat rt_step. reflexivity. Qed.
+  Lemma rle_sxlen i l : i < two64 -> l < two64 ->
+    rng_parse dbg c false (enc_rle c (LStartxLength i l) ++ rest) = Ok (Some (LStartxLength i l), rest).
+  Proof. intros. unfold rng_parse. cbn [enc_rle]. opcode_start. repeat rt_step. reflexivity. Qed.
+  Lemma rle_offp b e : b < two64 -> e < two64 ->
+    rng_parse dbg c false (enc_rle c (LOffsetPair b e) ++ rest) = Ok (Some (LOffsetPair b e), rest).
+  Proof. intros. unfold rng_parse. cbn [enc_rle]. opcode_start. repeat rt_step. reflexivity. Qed.
+  Lemma rle_base a : a < amod (c_asize c) ->
+    rng_parse dbg c false (enc_rle c (LBase a) ++ rest) = Ok (Some (LBase a), rest).
+  Proof. intros. unfold rng_parse. cbn [enc_rle]. opcode_start. repeat rt_step. reflexivity. Qed.
+  Lemma rle_se b e : b < amod (c_asize c) -> e < amod (c_asize c) ->
+    rng_parse dbg c false (enc_rle c (LStartEnd b e) ++ rest) = Ok (Some (LStartEnd b e), rest).
+  Proof. intros. unfold rng_parse. cbn [enc_rle]. opcode_start. repeat rt_step. reflexivity. Qed.
+  Lemma rle_sl b l : b < amod (c_asize c) -> l < two64 ->
+    rng_parse dbg c false (enc_rle c (LStartLength b l) ++ rest) = Ok (Some (LStartLength b l), rest).
+  Proof. intros. unfold rng_parse. cbn [enc_rle]. opcode_start. repeat rt_step. reflexivity. Qed.
+End RleEntries.
+
+(* NB: never unfold u64_max / two64 inside hypotheses that a `destruct` generalises: the kernel's
+   re-check of such conversions on 64-bit literals is pathologically slow. Go through these lemmas. *)
+Lemma fits_u64_lt i : fits_u64 i = true -> i < two64.
+Proof. unfold fits_u64, u64_max, two64. lia. Qed.
+Lemma fits_addr_lt c a : fits_addr c a = true -> a < amod (c_asize c).
+Proof. unfold fits_addr. lia. Qed.
+
+Ltac wf_split :=
+  repeat match goal with
+  | H : _ && _ = true |- _ => apply andb_true_iff in H; destruct H
+  | H : fits_u64 _ = true |- _ => apply fits_u64_lt in H
+  | H : fits_addr _ _ = true |- _ => apply fits_addr_lt in H
+  | H : negb _ = true |- _ => apply negb_true_iff in H
+  end.
+
+Lemma rng_parse_rle_enc dbg c e rest :
+  valid_asize (c_asize c) = true -> wf_rle c e = true ->
+  rng_parse dbg c false (enc_rle c e ++ rest) = Ok (Some e, rest).
+Proof.
+  intros Hv Hw.
+  destruct e; try discriminate Hw; cbn [wf_rle] in Hw; wf_split.
+  - apply rle_base; assumption.
+  - apply rle_basex; assumption.
+  - apply rle_sxex; assumption.
+  - apply rle_sxlen; assumption.
+  - apply rle_offp; assumption.
+  - apply rle_se; assumption.
+  - apply rle_sl; assumption.
+Qed.
+
+Lemma aones_lt sz : valid_asize sz = true -> aones sz < amod sz /\ aones sz <> 0.
+Proof. intros H. pose proof (amod_valid sz H). unfold aones. lia. Qed.
+
+Lemma parse_raw_range_pair dbg c b e rest :
+  valid_asize (c_asize c) = true -> b < amod (c_asize c) -> e < amod (c_asize c) ->
+  parse_raw_range dbg c (enc_addr c b ++ enc_addr c e ++ rest) =
+  Ok ((if (b =? 0) && (e =? 0) then None
+       else if b =? aones (c_asize c) then Some (inl e) else Some (inr (b, e))), rest).
+Proof.
+  intros Hv Hb He. unfold parse_raw_range. repeat rt_step.
+  destruct ((b =? 0) && (e =? 0)); [reflexivity|].
+  rewrite ones_sized_valid by exact Hv. cbn [bind].
+  destruct (b =? aones (c_asize c)); reflexivity.
+Qed.
+
+Lemma rng_parse_pair_enc dbg c e rest :
+  valid_asize (c_asize c) = true -> wf_pair c e = true ->
+  rng_parse dbg c true (enc_pair c e ++ rest) = Ok (Some e, rest).
+Proof.
+  intros Hv Hw. pose proof (aones_lt _ Hv) as [Ho Ho0]. unfold rng_parse.
+  destruct e; try discriminate Hw; cbn [wf_pair] in Hw; wf_split; cbn [enc_pair]; rewrite <- app_assoc;
+    rewrite parse_raw_range_pair by assumption; cbn [bind].
+  - repeat match goal with H : ?x = false |- context [?x] => rewrite H end. reflexivity.
+  - replace ((aones (c_asize c) =? 0) && (a =? 0)) with false by lia.
+    rewrite N.eqb_refl. reflexivity.
+Qed.
+
+Lemma rng_parse_pair_end dbg c rest :
+  valid_asize (c_asize c) = true ->
+  rng_parse dbg c true (enc_addr c 0 ++ enc_addr c 0 ++ rest) = Ok (None, rest).
+Proof.
+  intros Hv. pose proof (amod_valid _ Hv). unfold rng_parse.
+  rewrite parse_raw_range_pair by (try assumption; lia). reflexivity.
+Qed.
+
+Lemma parse_data_enc dbg c d rest :
+  wf_data c d = true -> parse_data dbg c (enc_data c d ++ rest) = Ok (d, rest).
+Proof.
+  intros Hw. unfold wf_data in Hw. unfold parse_data, enc_data. destruct (5 <=? c_version c).
+  - wf_split. repeat rt_step. apply split_app.
+  - rewrite <- app_assoc. unfold read_u16. rewrite read_un_enc. cbn [bind].
+    rewrite N.mod_small by (change (256 ^ N.of_nat 2) with 65536; lia). apply split_app.
+Qed.
+
+Lemma loc_parse_lle_end dbg c rest : loc_parse dbg c false (n2b 0 :: rest) = Ok (None, rest).
+Proof. reflexivity. Qed.
+
+Section LleEntries.
+  Variables (dbg : bool) (c : lcfg) (rest : list byte).
+  Hypothesis Hv : valid_asize (c_asize c) = true.
+
+  Ltac lle_go := intros; unfold loc_parse; cbn [enc_lle]; opcode_start; repeat rt_step;
+    try (rewrite parse_data_enc by assumption); reflexivity.
+
+  Lemma lle_basex i : i < two64 ->
+    loc_parse dbg c false (enc_lle c (LBasex i, []) ++ rest) = Ok (Some (LBasex i, []), rest).
+  Proof. lle_go. Qed.
+  Lemma lle_base a : a < amod (c_asize c) ->
+    loc_parse dbg c false (enc_lle c (LBase a, []) ++ rest) = Ok (Some (LBase a, []), rest).
+  Proof. lle_go. Qed.
+  Lemma lle_sxex i j d : i < two64 -> j < two64 -> wf_data c d = true ->
+    loc_parse dbg c false (enc_lle c (LStartxEndx i j, d) ++ rest) = Ok (Some (LStartxEndx i j, d), rest).
+  Proof. lle_go. Qed.
+  Lemma lle_sxlen i l d : i < two64 ->
+    (if 5 <=? c_version c then fits_u64 l else l <? 4294967296) = true -> wf_data c d = true ->
+    loc_parse dbg c false (enc_lle c (LStartxLength i l, d) ++ rest) = Ok (Some (LStartxLength i l, d), rest).
+  Proof.
+    intros Hi Hl Hd. unfold loc_parse. cbn [enc_lle]. opcode_start. repeat rt_step.
+    destruct (5 <=? c_version c).
+    - wf_split. repeat rt_step. rewrite parse_data_enc by assumption. reflexivity.
+    - repeat rewrite <- app_assoc. unfold read_u32. rewrite read_un_enc. cbn [bind].
+      rewrite N.mod_small by (change (256 ^ N.of_nat 4) with 4294967296; lia).
+      rewrite parse_data_enc by assumption. reflexivity.
+  Qed.
+  Lemma lle_offp b e d : b < two64 -> e < two64 -> wf_data c d = true ->
+    loc_parse dbg c false (enc_lle c (LOffsetPair b e, d) ++ rest) = Ok (Some (LOffsetPair b e, d), rest).
+  Proof. lle_go. Qed.
+  Lemma lle_dflt d : wf_data c d = true ->
+    loc_parse dbg c false (enc_lle c (LDefault, d) ++ rest) = Ok (Some (LDefault, d), rest).
+  Proof. lle_go. Qed.
+  Lemma lle_se b e d : b < amod (c_asize c) -> e < amod (c_asize c) -> wf_data c d = true ->
+    loc_parse dbg c false (enc_lle c (LStartEnd b e, d) ++ rest) = Ok (Some (LStartEnd b e, d), rest).
+  Proof. lle_go. Qed.
+  Lemma lle_sl b l d : b < amod (c_asize c) -> l < two64 -> wf_data c d = true ->
+    loc_parse dbg c false (enc_lle c (LStartLength b l, d) ++ rest) = Ok (Some (LStartLength b l, d), rest).
+  Proof. lle_go. Qed.
+End LleEntries.
+
+Lemma loc_parse_lle_enc dbg c x rest :
+  valid_asize (c_asize c) = true -> wf_lle c x = true ->
+  loc_parse dbg c false (enc_lle c x ++ rest) = Ok (Some x, rest).
+Proof.
+  intros Hv Hw. destruct x as [e d]. unfold wf_lle in Hw. apply andb_true_iff in Hw as [Hd Hw].
+  destruct e; try discriminate Hw; cbn [has_data] in Hd;
+    try (destruct d; [|discriminate Hd]).
+  - wf_split. apply lle_base; assumption.
+  - wf_split. apply lle_basex; assumption.
+  - wf_split. apply lle_sxex; assumption.
+  - apply andb_true_iff in Hw as [Hi Hl]. apply fits_u64_lt in Hi. apply lle_sxlen; assumption.
+  - wf_split. apply lle_offp; assumption.
+  - apply lle_dflt; assumption.
+  - wf_split. apply lle_se; assumption.
+  - wf_split. apply lle_sl; assumption.
+Qed.
+
+Lemma loc_parse_pair_enc dbg c x rest :
+  valid_asize (c_asize c) = true -> wf_locpair c x = true ->
+  loc_parse dbg c true (enc_locpair c x ++ rest) = Ok (Some x, rest).
+Proof.
+  intros Hv Hw. destruct x as [e d]. pose proof (aones_lt _ Hv) as [Ho Ho0]. unfold loc_parse.
+  destruct e; try discriminate Hw; cbn [enc_locpair wf_locpair wf_pair] in *; wf_split.
+  - repeat rewrite <- app_assoc. rewrite parse_raw_range_pair by assumption. cbn [bind].
+    repeat match goal with H : ?x = false |- context [?x] => rewrite H end.
+    unfold read_u16. rewrite read_un_enc. cbn [bind].
+    rewrite N.mod_small by (change (256 ^ N.of_nat 2) with 65536; lia).
+    rewrite split_app. reflexivity.
+  - destruct d; [|discriminate]. rewrite <- app_assoc.
+    rewrite parse_raw_range_pair by assumption. cbn [bind].
+    replace ((aones (c_asize c) =? 0) && (a =? 0)) with false by lia.
+    rewrite N.eqb_refl. reflexivity.
+Qed.
+
+Lemma loc_parse_pair_end dbg c rest :
+  valid_asize (c_asize c) = true ->
+  loc_parse dbg c true (enc_addr c 0 ++ enc_addr c 0 ++ rest) = Ok (None, rest).
+Proof.
+  intros Hv. pose proof (amod_valid _ Hv). unfold loc_parse.
+  rewrite parse_raw_range_pair by (try assumption; lia). reflexivity.
+Qed.
